@@ -57,8 +57,14 @@ class Sym:
         if e == "*":
             if t[0] == "ref":
                 return t[1]
+            if t[0] == "upd" and t[2] == "*":
+                return t[3]            # read after write through the same reference
             return ("deref", t)
         k = e[0]
+        if k == "f" and t[0] == "upd" and isinstance(t[2], tuple) and t[2][0] == "f":
+            if t[2][1] == e[1]:
+                return t[3]
+            return self.proj(t[1], e)
         if k == "f":
             if t[0] == "agg" and t[1] in ("adt", "tuple", "closure") and e[1] < len(t[4]):
                 return t[4][e[1]]
@@ -150,6 +156,21 @@ class Sym:
     def _known_switch_value(self, d):
         if d[0] == "const" and isinstance(d[1], (int, bool)):
             return int(d[1])
+        if d[0] == "discr" and d[1][0] == "call" and isinstance(d[1][1], str) and self.prog.has(d[1][1]):
+            # a trivial constructor function (single straight-line path returning an aggregate)
+            cache = self.prog.__dict__.setdefault("_ctor_cache", {})
+            name = d[1][1]
+            if name not in cache:
+                cache[name] = None
+                try:
+                    ps = [p for p in Sym(self.prog, name).paths(max_paths=4) if p.end[0] == "return"]
+                    if len(ps) == 1 and not [c for c in ps[0].conds if c[0][0] == "switch"] and ps[0].ret[0] == "agg" and ps[0].ret[1] == "adt":
+                        cache[name] = ps[0].ret
+                except Exception:
+                    pass
+            r = cache[name]
+            if r is not None:
+                d = ("discr", r)
         if d[0] == "discr" and d[1][0] == "agg" and d[1][1] == "adt":
             adt = self.prog.adts.get(d[1][2])
             vidx = d[1][5]
